@@ -10,7 +10,7 @@ atoms are token strings: n T F i<int> k<name> v<slot> g<index>;  prims are tuple
 `n` = environment depth (slot that the node's value is bound to); labels l > 0 are logged, 0 is silent.
 """
 
-SUSPENDING = ("yield", "signal", "error", "propagate")
+SUSPENDING = ("yield", "signal", "debug", "error", "propagate")
 TARGETING = ("resume", "cancel", "next")
 
 
@@ -128,12 +128,14 @@ def jprim(l, p):
         return "(do (snd %d %d %s) (signal %d %s))" % (l, 4 + p[1], ja(p[2]), p[1], ja(p[2]))
     if k == 'error':
         return "(do (snd %d 1 %s) (error %s))" % (l, ja(p[1]), ja(p[1]))
+    if k == 'debug':
+        return "(do (snd %d 2 %s) (debug %s))" % (l, ja(p[1]), ja(p[1]))
     if k == 'resume':
         return "(do (pre %d 0 %s %s) (resume %s %s))" % (l, ja(p[1]), ja(p[2]), ja(p[1]), ja(p[2]))
     if k == 'cancel':
         return "(do (pre %d 1 %s %s) (cancel %s %s))" % (l, ja(p[1]), ja(p[2]), ja(p[1]), ja(p[2]))
     if k == 'propagate':
-        return "(do (snd %d -1 %s) (propagate %s %s))" % (l, ja(p[1]), ja(p[1]), ja(p[2]))
+        return "(do (sndp %d %s %s) (propagate %s %s))" % (l, ja(p[1]), ja(p[2]), ja(p[1]), ja(p[2]))
     if k == 'next':
         return "(do (pre %d 2 %s nil) (next %s))" % (l, ja(p[1]), ja(p[1]))
     if k == 'last':
@@ -166,7 +168,7 @@ def jseq(t, n):
     if k == 'P':
         return bind(n, t[1], jprim(t[1], t[2]), jseq(t[3], n + 1))
     if k == 'N':
-        return bind(n, t[1], "(c05/new (fn [] %s) %s)" % (" ".join(jseq(t[3], n)), fl(t[2])), jseq(t[4], n + 1))
+        return bind(n, t[1], "(c05/new (fn [] (retv (do %s))) %s)" % (" ".join(jseq(t[3], n)), fl(t[2])), jseq(t[4], n + 1))
     if k == 'B':
         return bind(n, t[1], "(do %s)" % " ".join(jseq(t[2], n)), jseq(t[3], n + 1))
     if k == 'C':
@@ -213,7 +215,7 @@ def jseq(t, n):
         return bind(n, l, "(c05-generate [_ :range [0 %d]] %s)" % (cnt, " ".join(jseq(body, n))), jseq(K, n + 1))
     if k == 'Mcoro':
         _, l, body, K = t
-        return bind(n, l, "(c05-coro %s)" % " ".join(jseq(body, n)), jseq(K, n + 1))
+        return bind(n, l, "(c05-coro (retv (do %s)))" % " ".join(jseq(body, n)), jseq(K, n + 1))
     if k == 'Mdyns':
         _, n_, l, key, a, body, K = t
         return bind(n, l, "(c05-with-dyns [:k%d %s] %s)" % (key, ja(a), " ".join(jseq(body, n))), jseq(K, n + 1))
@@ -225,72 +227,90 @@ def janet_tree(idx, t, flags):
 
 
 # ------------------------------------------------------------------ static information used by the direct oracle
-def site_info(t, info=None, ctx=None):
-    """label -> description (kind of instruction; for cleanup markers: which macro site they belong to)"""
+def site_info(t, info=None, inc=False):
+    """label -> description (kind of instruction; for cleanup markers: which macro site they belong to);
+    info["in_c"] = labels of instructions that execute with a janet_call frame of their own fiber live (lexically
+    inside a C node, not crossing into a new fiber body)"""
     if info is None:
-        info = {"op": {}, "cleanup": {}, "bodystart": {}, "each": {}, "dyn": {}, "setdyn": {}, "ccall_labels": set()}
+        info = {"op": {}, "cleanup": {}, "bodystart": {}, "each": {}, "dyn": {}, "setdyn": {}, "in_c": set()}
     k = t[0]
+
+    def lab(l):
+        if inc and l:
+            info["in_c"].add(l)
     if k == 'R':
         return info
     if k == 'I':
-        site_info(t[3], info)
-        site_info(t[4], info)
+        site_info(t[3], info, inc)
+        site_info(t[4], info, inc)
     elif k == 'P':
         info["op"][t[1]] = t[2]
-        site_info(t[3], info)
+        lab(t[1])
+        site_info(t[3], info, inc)
     elif k == 'N':
         info["op"][t[1]] = ('new', t[2])
-        site_info(t[3], info)
-        site_info(t[4], info)
+        lab(t[1])
+        site_info(t[3], info, False)
+        site_info(t[4], info, inc)
     elif k in ('B', 'C'):
         info["op"][t[1]] = (k,)
-        site_info(t[2], info)
-        site_info(t[3], info)
+        lab(t[1])
+        site_info(t[2], info, inc or k == 'C')
+        site_info(t[3], info, inc)
     elif k == 'E':
         info["op"][t[1]] = ('each', t[2])
+        lab(t[1])
         info["each"][first_label(t[3])] = t[1]
-        site_info(t[3], info)
-        site_info(t[4], info)
+        site_info(t[3], info, inc)
+        site_info(t[4], info, inc)
     elif k == 'S':
-        site_info(t[1], info)
-        site_info(t[2], info)
+        site_info(t[1], info, inc)
+        site_info(t[2], info, inc)
     elif k in ('Mdefer', 'Medefer', 'Mtry'):
         info["op"][t[2]] = (k,)
-        a, b = (t[3], t[4]) if k != 'Mtry' else (t[4], t[3])   # a = cleanup/catch, b = body
+        lab(t[2])
+        a, b = (t[3], t[4]) if k != 'Mtry' else (t[4], t[3])   # a = cleanup/catch (parent fiber), b = body (own fiber)
         info["cleanup"][t[2]] = (k, first_label(a), first_label(b))
-        site_info(t[3], info)
-        site_info(t[4], info)
-        site_info(t[5], info)
+        site_info(a, info, inc)
+        site_info(b, info, False)
+        site_info(t[5], info, inc)
     elif k == 'Mprotect':
         info["op"][t[2]] = (k,)
-        site_info(t[3], info)
-        site_info(t[4], info)
+        lab(t[2])
+        site_info(t[3], info, False)
+        site_info(t[4], info, inc)
     elif k == 'Mwith':
         info["op"][t[2]] = (k,)
+        lab(t[2])
         info["cleanup"][t[2]] = (k, first_label(t[4]), first_label(t[5]))
-        site_info(t[4], info)
-        site_info(t[5], info)
-        site_info(t[6], info)
+        site_info(t[4], info, inc)
+        site_info(t[5], info, False)
+        site_info(t[6], info, inc)
     elif k == 'Mprompt':
         info["op"][t[2]] = (k,)
-        site_info(t[4], info)
-        site_info(t[5], info)
+        lab(t[2])
+        site_info(t[4], info, False)
+        site_info(t[5], info, inc)
     elif k == 'Mreturn':
         info["op"][t[2]] = (k,)
-        site_info(t[5], info)
+        lab(t[2])
+        site_info(t[5], info, inc)
     elif k == 'Mgen':
         info["op"][t[2]] = (k, t[3])
-        site_info(t[4], info)
-        site_info(t[5], info)
+        lab(t[2])
+        site_info(t[4], info, False)
+        site_info(t[5], info, inc)
     elif k == 'Mcoro':
         info["op"][t[1]] = (k,)
-        site_info(t[2], info)
-        site_info(t[3], info)
+        lab(t[1])
+        site_info(t[2], info, False)
+        site_info(t[3], info, inc)
     elif k == 'Mdyns':
         info["op"][t[2]] = (k, t[3], t[4])
+        lab(t[2])
         info["dyn"][first_label(t[5])] = (t[3], t[4])
-        site_info(t[5], info)
-        site_info(t[6], info)
+        site_info(t[5], info, False)
+        site_info(t[6], info, inc)
     return info
 
 
@@ -379,10 +399,9 @@ class Gen:
         if budget <= 0:
             return ('R', self.val(vis))
         deep = depth >= self.maxdepth
-        choices = [("yield", 10), ("signal", 6), ("error", 3), ("pure", 3), ("resume", 14), ("cancel", 5), ("next", 3), ("last", 2),
+        choices = [("yield", 10), ("signal", 6), ("debug", 2), ("error", 3), ("pure", 3), ("resume", 14), ("cancel", 5), ("next", 3), ("last", 2),
                    ("status", 2), ("setdyn", 4), ("dyn", 5), ("ite", 3)]
-        if not ccall:
-            choices.append(("propagate", 3))
+        choices.append(("propagate", 3))
         if not deep:
             choices += [("new", 12), ("defer", 5), ("edefer", 3), ("try", 4), ("protect", 2), ("with", 3), ("prompt", 3), ("gen", 3),
                         ("coro", 3), ("dyns", 3), ("block", 2), ("ccall", 3), ("each", 4)]
@@ -407,6 +426,8 @@ class Gen:
             return ('P', l, ('signal', r.below(10), self.val(vis)), rest())
         if kind == "error":
             return ('P', l, ('error', self.val(vis)), rest())
+        if kind == "debug":
+            return ('P', l, ('debug', self.val(vis)), rest())
         if kind == "pure":
             return ('P', l, ('pure', self.val(vis)), rest())
         if kind == "resume":
